@@ -86,9 +86,10 @@ package lua
 //@ noraise
 //@ modifies nothing
 
-//@ func newLTable [C20]
+//@ func newLTable [C02 C20]
 //@ noraise
 //@ ensures  result != nil && fresh(result) && Inv_arr(result) && Inv_hash(result) && len(result.array) == 0 && result.Metatable == LNil
+//@ ensures  (arrid(result.array) == 0 || fresh(result.array)) && arrid(result.keys) == 0 && result.dict == nil && (result.strdict == nil || fresh(result.strdict)) && result.k2i == nil
 //@ modifies nothing
 
 // OpenPackage copies the searcher list, in order, into the table it stores as package.loaders and registry._LOADERS
